@@ -172,16 +172,16 @@ Section Discipline.
     - rewrite (F1 eq_refl) in C. apply return_ok_run, C.
   Qed.
 
-  Theorem chk_prog_sound fuel tr :
-    chk_prog guarded immutable P fuel = true -> ttrace P tr -> wl_trace tr.
+  Theorem chk_prog_sound fuel entries tr :
+    chk_prog guarded immutable P fuel entries = true -> ttrace P entries tr -> wl_trace tr.
   Proof.
-    intros C T. induction T as [|m tr rest M _ IH]; [reflexivity|].
+    intros C T. induction T as [|m tr rest I M _ IH]; [reflexivity|].
     unfold Locks.wl_trace. rewrite run_tr_app.
     assert (W : wl_trace tr).
     { destruct M as (body & t & d & r & Lk & E & Eq).
       apply (chk_method_sound fuel m body); [exact Lk | | exists body, t, d, r; auto].
       unfold Locks.chk_prog in C. rewrite forallb_forall in C.
-      apply (C (m, body)), lookup_in, Lk. }
+      specialize (C m I). rewrite Lk in C. exact C. }
     rewrite W. exact IH.
   Qed.
 End Discipline.
